@@ -1,5 +1,28 @@
-(* C01 — property theorems (bootstrap stage; see DESIGN.md section 6). *)
-From Verif Require Import Inflate.
-Theorem C01_spec_inflater_runs : status (inflate [] [3;0]) = Done /\ out (inflate [] [3;0]) = [].
+(* C01 — property theorems.  Model: WModel/{LZ77,Codes,Encode,Compressor,WriterSM}.v — the pure-Go writer (acceleration level 0), compared byte for byte with the implementation on every run; the assembly levels are tied to it by the run-time contract checks (DESIGN.md 4.3).
+   Only statements, each closed by `exact`, followed by Print Assumptions. *)
+From Coq Require Import ZArith.
+From Verif Require Import FinalSpec WriterTheorems WriterStateProofs TraceContent.
+Open Scope N_scope.
+
+(* Writes and Flushes in any order and any partition, then Close, at any accelerated setting (level
+   1, 2, -1, -2, either window; `sync` selects the amd64 or the portable packer): every call returns
+   nil, the model never reads out of bounds, and -- given that the generated code lengths of every
+   block form a valid prefix code (event_ok_b, a decidable fact evaluated on every block of every
+   run: Checked.v) -- the bytes received by the destination are one complete DEFLATE stream which the
+   reference inflater decodes to exactly the data written, ending at the last byte. *)
+Theorem C01_roundtrip : C01_statement.
+Proof. exact WriterTheorems.C01_roundtrip. Qed.
+Print Assumptions C01_roundtrip.
+
+(* the decidable premise is sound for the Prop it stands for *)
+Theorem C01_event_ok_b_sound : event_ok_b_sound_statement.
+Proof. exact RenderProofs.event_ok_b_sound. Qed.
+Print Assumptions C01_event_ok_b_sound.
+
+(* non-vacuity: a concrete history satisfies the premise and the conclusion *)
+Example C01_example :
+  match hrun true 1%Z false [HWrite [104;101;108;108;111;32;104;101;108;108;111;32;104;101;108;108;111]; HFlush; HWrite [33]; HClose] with
+  | Some (w, flags) => forallb event_ok_b (run_trace w) = true /\ status (inflate [] (run_bytes w)) = Done
+  | None => False
+  end.
 Proof. vm_compute. split; reflexivity. Qed.
-Print Assumptions C01_spec_inflater_runs.
